@@ -337,7 +337,7 @@ pub fn finish(check: &Check, opts: &RunOpts, mut rep: Report) -> i32 {
         let _ = std::fs::create_dir_all(&d);
         let mut out = String::new();
         for v in &unknown {
-            out.push_str(&format!("{}\t{}\t{}\n", v.part, v.index, v.detail.replace('\n', " ⏎ ")));
+            out.push_str(&format!("{}\t{}\t{}{}\n", v.part, v.index, v.sig.as_ref().map(|s| format!("[sig {}] ", s)).unwrap_or_default(), v.detail.replace('\n', " ⏎ ")));
         }
         let _ = std::fs::write(d.join("violations.txt"), out);
     }
